@@ -315,6 +315,42 @@ pub fn run(run: &Run) {
             }
         }
     });
+    {
+        let labels = super::pipe::zwnj_run_labels();
+        super::pipe::battery(run, "zwnj_run_labels", &labels, &|s, l| {
+            let chars: Vec<char> = s.chars().collect();
+            let z = chars.iter().position(|c| *c == ZWNJ).unwrap();
+            match check_label_all(&chars, &[z, z.saturating_sub(1), z + 1, 0, chars.len() - 1, chars.len()], &[CtxRule::Zwnj, CtxRule::Zwj], l) {
+                Ok(()) => true,
+                Err(v) => {
+                    run.violate(v);
+                    false
+                }
+            }
+        });
+        // positions that alias an in-label position modulo 2^8, 2^16, 2^31, 2^32, 2^63 (offset truncated to a narrower integer)
+        let fam: Vec<String> = super::pipe::PAYLOADS_FAMILIES.iter().map(|s| s.to_string()).chain(["l\u{b7}l".to_string(), "\u{94d}\u{200d}".to_string(), "\u{5d0}\u{5f3}".to_string(), "\u{375}\u{3b1}".to_string(), "\u{626}\u{200c}\u{626}".to_string()]).collect();
+        super::pipe::battery(run, "position_aliases", &fam, &|s, l| {
+            let chars: Vec<char> = s.chars().collect();
+            let mut positions: Vec<usize> = Vec::new();
+            for p in 0..=chars.len() + 1 {
+                for sh in [8u32, 16, 31, 32, 33, 48, 63] {
+                    if let Some(x) = 1usize.checked_shl(sh) {
+                        positions.push(p.wrapping_add(x));
+                        positions.push(x.wrapping_sub(p).wrapping_sub(1));
+                        positions.push(p | x);
+                    }
+                }
+            }
+            match check_label_all(&chars, &positions, &ALL_RULES, l) {
+                Ok(()) => true,
+                Err(v) => {
+                    run.violate(v);
+                    false
+                }
+            }
+        });
+    }
     // (c) random labels and positions, all 8 functions
     let mk = || {
         let ch = prop_oneof![45 => gens::pick(&pools().ctx), 15 => gens::pick_classed(&pools().by_jt), 10 => gens::pick(&pools().virama), 20 => gens::pick(&pools().general), 10 => gens::gchar()];
